@@ -88,6 +88,13 @@ func (r *Response) FetchPayload(maxPayloadSize int64) error {
 
 	stdr := r.Response
 
+	// the response of a HEAD request has no body, whatever length it
+	// declares.
+	if stdr.Request != nil && stdr.Request.Method == http.MethodHead {
+		r.SetPayload(nil)
+		return nil
+	}
+
 	if stdr.ContentLength > maxPayloadSize {
 		return ErrResponseEntityTooLarge
 	}
